@@ -6,7 +6,7 @@ From Verif.proofs Require Import GenValProofs GenValTheorems.
 Import ListNotations.
 Open Scope N_scope.
 
-Definition En (P : params) (r : N) : env := mkEnv P false false r.
+Definition En (P : params) (r : N) : env := mkEnv P false false r (p_maxbytes P).
 
 Lemma tx_val_nov : forall P r L parent c s c' s',
   transaction (Ev P r) L parent c s = Ok (c', s') ->
